@@ -122,7 +122,7 @@ impl Prop for C09 {
     }
 
     fn runs(tier: Tier) -> u64 {
-        tier.pick(20_000, 1_500_000)
+        tier.pick(60_000, 3_000_000)
     }
 
     fn generate(r: &mut Rng, _tier: Tier, _idx: u64) -> Scn {
